@@ -138,6 +138,17 @@ fn observe(mode: Mode, path: &[Value], suffix_rounds: usize) -> Vec<Value> {
     // fair suffix on the real objects: deliver everything oldest first, tick whoever is due,
     // otherwise advance the clock to the earliest reported deadline
     if suffix_rounds > 0 {
+        // usability probe: every endpoint that is online submits one more vital chunk; the fair suffix must deliver
+        // it (a connection that silently lost a sequence number or a queue entry earlier fails here)
+        for e in 0..2 {
+            if w.proj_ep(e)["st"] == json!("Onl") {
+                for act in [json!({"a": "send", "e": E[e], "id": 60001 + e, "sz": 8, "v": true}), json!({"a": "flush", "e": E[e]})] {
+                    let o = w.apply(&act);
+                    let rec = log(&w, &act, &o, &mut seen_malformed);
+                    out.push(rec);
+                }
+            }
+        }
         out.push(json!({"a": "fair"}));
         for _ in 0..suffix_rounds {
             let act;
